@@ -624,3 +624,50 @@ Proof.
     assert (w_pend 1 (pc t) (rg t) = 0) by (destruct Hpc as [E|E]; rewrite E; reflexivity).
     apply (sumz_zero_all _ t_win (thr g)); [intros; apply t_win_01|lia|auto].
 Qed.
+Lemma aflag_01 : forall g, Inv g -> aflag g = 0 \/ aflag g = 1.
+Proof.
+  intros g HI. unfold aflag. pose proof (i_flag g HI) as [A B].
+  assert (0 <= sumz t_fh (thr g)) by (apply sumz_nonneg; intros; apply t_fh_01). lia.
+Qed.
+
+Lemma at_inv : forall t c p, at_ t c p = true -> fin t = false /\ cid t = c /\ pc t = p.
+Proof.
+  intros t c p H. unfold at_ in H.
+  destruct (fin t); [discriminate|]. cbn [negb andb] in H.
+  destruct (Nat.eqb (cid t) c) eqn:E1; [|discriminate]. cbn [andb] in H.
+  apply Nat.eqb_eq in E1, H. auto.
+Qed.
+
+(* a timed wait may give up at any moment; it then returns False and the invariant is kept *)
+Theorem timed_out_wait : forall g i t, Inv g -> small g -> nth_error (thr g) i = Some t ->
+    at_ t 0 9 = true -> r0 (rg t) <> 0 ->
+    exists g', step code g i false = Some (g', (i, 3%nat, 0, 0)) /\ Inv g' /\
+               pending (thread_at g' i) = Some 0.
+Proof.
+  intros g i t HI Hsm Ht Hat Hr0.
+  destruct (at_inv _ _ _ Hat) as (Hf & Hc & Hp).
+  assert (Hs : exists g', step code g i false = Some (g', (i, 3%nat, 0, 0))).
+  { unfold step. rewrite Ht, Hf, Hc, Hp. cbn [code p_c_wait nth_error flagv getr andb].
+    replace (negb (r0 (rg t) =? 0)) with true by lia. eexists; reflexivity. }
+  destruct Hs as [g' Hs]. exists g'. split; [exact Hs|].
+  destruct (step_spec g i false g' _ t HI Hsm Ht Hs) as (A & (_ & _ & _ & B) & _).
+  split; [exact A|]. apply (B Hat).
+Qed.
+
+(* an untimed wait can only leave its semaphore acquire with True *)
+Theorem untimed_wait_true : forall g i t go g' e, Inv g -> small g -> nth_error (thr g) i = Some t ->
+    at_ t 0 9 = true -> r0 (rg t) = 0 -> step code g i go = Some (g', e) ->
+    e = (i, 3%nat, 0, 1) /\ pending (thread_at g' i) = Some 1.
+Proof.
+  intros g i t go g' e HI Hsm Ht Hat Hr0 Hs.
+  destruct (at_inv _ _ _ Hat) as (Hf & Hc & Hp).
+  assert (He : e = (i, 3%nat, 0, 1)).
+  { unfold step in Hs. rewrite Ht, Hf, Hc, Hp in Hs. cbn [code p_c_wait nth_error flagv getr andb] in Hs.
+    replace (negb (r0 (rg t) =? 0)) with false in Hs by lia.
+    destruct go; [|discriminate].
+    destruct (sem_acq (nth 3 (sems g) dsem) (nth 3 (held t) 0)) as [[sm' h']|]; [|discriminate].
+    inversion Hs; reflexivity. }
+  split; [exact He|].
+  destruct (step_spec g i go g' e t HI Hsm Ht Hs) as (_ & (_ & _ & _ & B) & _).
+  rewrite (B Hat), He. reflexivity.
+Qed.
